@@ -93,4 +93,10 @@ CHECKS = {
         'note': 'Assumed: argparse applies actions left to right (then the value of an option is the one written by the last option touching it, by induction over the step contracts); cross-checked natively through the real argparse on all single options, 182 ordered pairs and random sequences.',
         'technique': 'contract-based deductive verification: step contracts with frame conditions on symbolic namespaces, registry obligations, z3; native argparse harness as bounded stand-in',
     },
+    'C16': {
+        'category': 'proof',
+        'text': 'For each of 157 operator / constant schemas of a typing table written from the SMT-LIB theory definitions (Core, Ints, Reals, bit-vectors incl. all indexed operators, FloatingPoint, Strings, ArraysEx) a schematic term with opaque well-sorted operands (lazy symbolic nodes, symbolic widths and indices) is built, and the real _get_sort_aux / get_bv_width are executed on it; recursive calls on operands are answered by the contract itself (unknown, or the true sort/width - both explored), which is structural induction over terms. Discharged by z3: the result is unknown or exactly the sort / width of the table (linear integer arithmetic over widths and indices; one named product for repeat). get_default_constants returns constants of the requested sort. A typed term generator over the same table runs the real collect_information + get_sort + get_bv_width natively on well-sorted scripts (bounded stand-in and source of concrete counterexamples).',
+        'note': 'The typing table is the specification (trusted). n-ary operators at arities 2 and 3; user-defined functions, datatypes, let and quantifier binders are covered only through the table-lookup schemas (variable of declared sort) - the construction of the tables by collect_information for let/quantifier binders is not under contract yet. Node.__eq__ used through its contract.',
+        'technique': 'contract-based deductive verification: per-schema VCs from the real AST with inductive contracts for recursive calls, z3; native typed-term generator as bounded stand-in',
+    },
 }
